@@ -69,6 +69,16 @@ def gen_index(rng, n, allow_neg=True):
     return tuple(idx), set(idx), 'tuple'
 
 
+def style(rng, kw, defaults, obs=None):
+    """call style: arguments that equal their documented default are left out half of the time (the default must mean the same)"""
+    out = dict(kw)
+    for k, d in defaults.items():
+        if k in out and (out[k] is d or (out[k] == d and type(out[k]) is type(d))) and rng.random() < 0.5:
+            del out[k]
+            if obs is not None: obs.event('default_argument_calls')
+    return out
+
+
 def same_type(obs, x, y, kind, who):
     ok = isinstance(y, np.ndarray) if kind == 'array' else isinstance(y, list)
     obs.check(ok, 'type:container type preserved', decorator=who, given=kind, observed=type(y).__name__)
@@ -113,7 +123,7 @@ def run_bounds(rng, obs):
     barg = spec[0] if (nint == 1 and rng.random() < 0.5) else spec
     if any(not math.isfinite(a) or not math.isfinite(b) for a, b in ivals) and not clip:
         clip = True                                # sampling uniformly from an infinite interval is undefined
-    f = impose_bounds(barg, index=index, clip=clip, nearest=nearest)(ident)
+    f = impose_bounds(barg, **style(rng, dict(index=index, clip=clip, nearest=nearest), dict(index=None, clip=True, nearest=True), obs))(ident)
     xc, kind = as_container(rng, x)
     y = f(xc.copy() if kind == 'array' else list(xc))
     obs.desc = {'decorator': 'impose_bounds', 'bounds': spec, 'index': index, 'index_kind': ikind, 'clip': clip,
@@ -160,7 +170,9 @@ def run_grid(rng, obs):
     if which == 'discrete':
         samples = sorted(set(rng.choice([-7.0, -3.5, -1.0, 0.0, 0.5, 2.0, 2.5, 4.0, 8.0, 10.0]) for _ in range(rng.randint(1, 6))))
         x = gen_vec(rng, n, grid=samples + [(a + b) / 2 for a, b in zip(samples, samples[1:])])
-        f = mc.discrete(list(samples), index=index)(ident)
+        given = list(samples)
+        if rng.random() < 0.5: rng.shuffle(given)          # the sample set need not be handed over sorted
+        f = mc.discrete(given, **style(rng, dict(index=index), dict(index=None), obs))(ident)
         conf = lambda v: v in samples
         def target(i, xi, yi):
             d = min(abs(xi - s) for s in samples)
@@ -169,7 +181,7 @@ def run_grid(rng, obs):
     elif which == 'integers':
         ints = rng.choice([True, False, float, int])
         x = gen_vec(rng, n)
-        f = mc.integers(ints=ints, index=index)(ident)
+        f = mc.integers(**style(rng, dict(ints=ints, index=index), dict(ints=True, index=None), obs))(ident)
         conf = lambda v: v == math.floor(v)
         def target(i, xi, yi):
             return yi == math.floor(yi) and abs(yi - xi) <= 0.5
@@ -178,7 +190,7 @@ def run_grid(rng, obs):
         digits = rng.choice([None, 0, 1, 2, 3, -1])
         d = digits or 0
         x = [round(v, rng.choice([0, 1, 2, 5, 9])) if rng.random() < 0.5 else v for v in gen_vec(rng, n, lo=-300, hi=300)]
-        f = getattr(mc, which)(digits=digits, index=index)(ident)
+        f = getattr(mc, which)(**style(rng, dict(digits=digits, index=index), dict(digits=None, index=None), obs))(ident)
         conf = lambda v: round(v, d) == v
         def target(i, xi, yi):
             return round(yi, d) == yi and abs(yi - xi) <= 0.5 * 10.0 ** (-d) * (1 + 1e-9)
@@ -264,7 +276,7 @@ def run_order(rng, obs):
         sel = rng.sample(range(n), k)                     # order of the index tuple must not matter
         # negative indices address positions from the end; mixed signs must select the same positions
         index = tuple((i - n) if rng.random() < 0.3 else i for i in sel); sel = sorted(sel)
-    f = getattr(mc, which)(ascending=asc, outer=outer, index=index)(ident)
+    f = getattr(mc, which)(**style(rng, dict(ascending=asc, outer=outer, index=index), dict(ascending=True, outer=False, index=None), obs))(ident)
     xc, kind = as_container(rng, x)
     y = f(xc.copy() if kind == 'array' else list(xc))
     obs.desc = {'decorator': which, 'ascending': asc, 'outer': outer, 'index': index, 'x': x, 'container': kind}
@@ -308,7 +320,10 @@ def run_pin(rng, obs):
             target = [float(j) - 0.5 for j in range(len(idx))]; tv = dict(zip(idx, target))
         tgt = target
         if isinstance(target, list) and rng.random() < 0.3: tgt = np.array(target)
-        f = impose_at(list(idx) if rng.random() < 0.7 else tuple(idx), tgt)(ident)
+        if not isinstance(target, list) and target == 0.0 and rng.random() < 0.5:
+            f = impose_at(list(idx))(ident); obs.event('default_argument_calls')       # target defaults to 0.0
+        else:
+            f = impose_at(list(idx) if rng.random() < 0.7 else tuple(idx), tgt)(ident)
         xc, kind = as_container(rng, x)
         y = f(xc.copy() if kind == 'array' else list(xc))
         yl = tolist(y)
@@ -335,7 +350,7 @@ def run_pin(rng, obs):
         pairs = sorted(set(pairs))
         if not pairs: pairs = [(0, 1)]
         mask = set(pairs) if rng.random() < 0.5 else list(pairs)
-        f = impose_as(mask, offset)(ident)
+        f = impose_as(mask, offset)(ident) if (offset is not None or rng.random() < 0.5) else impose_as(mask)(ident)
         xc, kind = as_container(rng, x)
         y = f(xc.copy() if kind == 'array' else list(xc))
         yl = tolist(y)
@@ -460,7 +475,7 @@ def run_rewrite(rng, obs):
         if rng.random() < 0.2: lo = None
         elif rng.random() < 0.2: hi = None
         exit_ = rng.choice([False, True])
-        f = mt.clipped(lo, hi, exit=exit_)(ident)
+        f = mt.clipped(**style(rng, dict(min=lo, max=hi, exit=exit_), dict(min=None, max=None, exit=False), obs))(ident)
         y = f(list(x))
         exp = [min(max(v, lo if lo is not None else -math.inf), hi if hi is not None else math.inf) for v in x]
         obs.desc.update({'min': lo, 'max': hi, 'exit': exit_})
@@ -472,7 +487,7 @@ def run_rewrite(rng, obs):
         tol = rng.choice([1e-8, 1e-3, 0.5])
         x = [v * rng.choice([1.0, 1e-4, 1e-9, 0.1]) for v in x]
         exit_ = rng.choice([False, True])
-        f = mt.suppressed(tol, exit=exit_)(ident)
+        f = mt.suppressed(**style(rng, dict(tol=tol, exit=exit_), dict(tol=1e-8, exit=False), obs))(ident)
         y = f(list(x))
         exp = [0.0 if abs(v) < tol else v for v in x]
         obs.desc.update({'tol': tol, 'exit': exit_, 'x': x})
